@@ -14,9 +14,11 @@ func C02(c *Ctx) int {
 	}
 	if err := c.TokenGameRound(fs, ps, RoundOpts{Label: "waits", MaxSteps: 7, MaxPerProg: capN,
 		Features: []string{"wait", "concwait"}, MaxWaits: 3,
-		Job: JobOpts{Perturb: 9, HoldPoints: []string{"process.start.triggered", "process.monitor.started", "process.monitor.cease", "process.wait.locked", "flow.start", "flow.flowtrace", "tracer.take", "tracer.subscribe"}}}); err != nil {
+		Job: JobOpts{Perturb: 9, EarlyWait: true, HoldPoints: []string{"process.start.triggered", "process.monitor.started", "process.monitor.cease", "process.wait.locked", "flow.start", "flow.flowtrace", "tracer.take", "tracer.subscribe"}}}); err != nil {
 		c.Infraf("%v", err)
 	}
+	// cancel while the instance is parked at unanswered requests: no cease trace may follow
+	c.ParkedCancelRound(fs, ps, 3)
 	// level M: StartAll / monitor / wait-group / completion lock / waiters over every interleaving
 	c.EngineRound(ps, EngineOpts{Label: "completion", MaxFlows: 6, NWaiters: 2, RunsPer: 3})
 	c.Extra["programs"] = len(ps)
